@@ -134,42 +134,28 @@ impl MT101 {
         let field_21r = parser.parse_optional_field::<Field21R>("21R")?;
         let field_28d = parser.parse_field::<Field28D>("28D")?;
 
-        // Parse optional ordering customer and instructing party (can appear in either order)
-        // Field 50 can be either instructing party (C/L) or ordering customer (F/G/H)
-        // Check which variant is present and parse accordingly
-        let (instructing_party, ordering_customer) = {
-            let mut instructing = None;
-            let mut ordering = None;
-
-            // Detect which Field 50 variant is present
-            if let Some(variant) = parser.detect_variant_optional("50") {
-                match variant.as_str() {
-                    "C" | "L" => {
-                        // Instructing party variants
-                        instructing =
-                            parser.parse_optional_variant_field::<Field50InstructingParty>("50")?;
-                    }
-                    "F" | "G" | "H" => {
-                        // Ordering customer variants
-                        ordering = parser
-                            .parse_optional_variant_field::<Field50OrderingCustomerFGH>("50")?;
-                    }
-                    _ => {
-                        // Unknown variant - try instructing party first, then ordering customer
-                        if let Ok(Some(field)) =
-                            parser.parse_optional_variant_field::<Field50InstructingParty>("50")
-                        {
-                            instructing = Some(field);
-                        } else {
-                            ordering = parser
-                                .parse_optional_variant_field::<Field50OrderingCustomerFGH>("50")?;
-                        }
-                    }
+        // Optional instructing party (50C/50L) followed by optional ordering customer
+        // (50F/50G/50H): the option letter decides which of the two families a field 50 belongs to
+        let mut instructing_party = None;
+        if let Some(variant) = parser.detect_variant_optional("50") {
+            match variant.as_str() {
+                "C" | "L" => {
+                    instructing_party =
+                        parser.parse_optional_variant_field::<Field50InstructingParty>("50")?;
                 }
+                _ => {}
             }
-
-            (instructing, ordering)
-        };
+        }
+        let mut ordering_customer = None;
+        if let Some(variant) = parser.detect_variant_optional("50") {
+            match variant.as_str() {
+                "F" | "G" | "H" => {
+                    ordering_customer =
+                        parser.parse_optional_variant_field::<Field50OrderingCustomerFGH>("50")?;
+                }
+                _ => {}
+            }
+        }
 
         let field_52a =
             parser.parse_optional_variant_field::<Field52AccountServicingInstitution>("52")?;
@@ -206,11 +192,28 @@ impl MT101 {
 
             let field_32b = parser.parse_field::<Field32B>("32B")?;
 
-            // Transaction-level optional ordering parties
-            let instructing_party_tx =
-                parser.parse_optional_variant_field::<Field50InstructingParty>("50")?;
-            let ordering_customer_tx =
-                parser.parse_optional_variant_field::<Field50OrderingCustomerFGH>("50")?;
+            // Transaction-level optional ordering parties: the option letter decides which of the
+            // two families the field belongs to (instructing party C/L, ordering customer F/G/H)
+            let mut instructing_party_tx = None;
+            if let Some(variant) = parser.detect_variant_optional("50") {
+                match variant.as_str() {
+                    "C" | "L" => {
+                        instructing_party_tx = parser
+                            .parse_optional_variant_field::<Field50InstructingParty>("50")?;
+                    }
+                    _ => {}
+                }
+            }
+            let mut ordering_customer_tx = None;
+            if let Some(variant) = parser.detect_variant_optional("50") {
+                match variant.as_str() {
+                    "F" | "G" | "H" => {
+                        ordering_customer_tx = parser
+                            .parse_optional_variant_field::<Field50OrderingCustomerFGH>("50")?;
+                    }
+                    _ => {}
+                }
+            }
 
             let field_52 =
                 parser.parse_optional_variant_field::<Field52AccountServicingInstitution>("52")?;
